@@ -2,10 +2,10 @@
 The per-segment retransmission timer as an inductive invariant over all operations:
 every segment of `snd_buf` that has been sent has `resendts = ts + rto`.  Core Lean only.
 -/
-import KcpVerif.Lemmas.KcpOps
+import KcpVerif.Lemmas.KcpLiveOps
 
-namespace KcpVerif.Kcp
-open KcpVerif KcpVerif.Gen
+namespace KcpVerif.Live
+open KcpVerif KcpVerif.Gen KcpVerif.Kcp
 
 /-- a sent segment's timer is its last transmission time plus its rto -/
 def SegTimer (s : Seg) : Prop := s.xmit ≠ 0 → s.resendts = s.ts + s.rto
@@ -352,4 +352,4 @@ theorem timer_antisymm (s : Seg) (now : U32) (ht : s.resendts = s.ts + s.rto) (h
 theorem run_append (k : Kcp) (ops : List Op) (op : Op) : run k (ops ++ [op]) = step (run k ops) op := by
   unfold run; rw [List.foldl_append]; rfl
 
-end KcpVerif.Kcp
+end KcpVerif.Live
